@@ -108,7 +108,20 @@ func c11Diagnose(text string, tree any) string {
 	const wsp = " \t\n\r"
 	if c11Gate(c11Compact(tree)).accepted {
 		if t := strings.TrimLeft(text, wsp); t != text && c11Gate(t).accepted {
+			if len(text)-len(t) >= 16 && c11Gate(" \t\n\r"+t).accepted {
+				return "long-leading-whitespace"
+			}
 			return "leading-whitespace"
+		}
+		if t := strings.TrimLeft(text, wsp); strings.HasPrefix(t, "[") {
+			lead := text[:len(text)-len(t)]
+			rest := strings.TrimLeft(t[1:], wsp)
+			if gap := len(t) - 1 - len(rest); gap > 0 && c11Gate(lead+"["+rest).accepted {
+				if gap >= 16 && c11Gate(lead+"[ \t\n\r"+rest).accepted {
+					return "long-whitespace-before-label"
+				}
+				return "whitespace-before-label"
+			}
 		}
 		if t := strings.TrimRight(text, wsp); t != text && c11Gate(t).accepted {
 			return "trailing-whitespace"
@@ -229,7 +242,7 @@ func c11MakeCorrupted(i int, stream string, cat []c11Class, signed bool) (f c11F
 
 func TestVerif_C11(t *testing.T) {
 	rep := vk.NewReport(t, "C11", "exploration")
-	rep.Rule = "JSON texts rendered from generated trees (random space/tab/LF/CR at every token boundary incl. before the first and after the last token, random \\u escapes outside the label): (wf) well-formed EVENT/REQ/CLOSE/AUTH/COUNT with every optional part absent/empty/single/several, all 52 tag-filter letters, a-addresses whose d contains ':' -> must be accepted and denote the same message; (corrupt) one catalogue corruption of such a message (envelope, event member, filter member classes) -> must be rejected; (mix) 0-3 corruptions and undecided features combined, judged by the reference validator on the decoded text; (observe) sub-cases the statement leaves open, only counted; (e2e) the same kinds of frames through Relay.ServeHTTP: forwarded vs NOTICE. Every accepted text of every stream: the accepted value must satisfy the statement's constraints. non-trivial = every case except compact well-formed texts; distinct = distinct (stream, label, text style, optional-part shape | corruption class and sub-class | verdict reasons)"
+	rep.Rule = "JSON texts rendered from generated trees (random space/tab/LF/CR at every token boundary incl. before the first and after the last token; a quarter of the texts with a 20-300 byte run before '[', between '[' and the label, at both or elsewhere; random \\u escapes outside the label): (wf) well-formed EVENT/REQ/CLOSE/AUTH/COUNT with every optional part absent/empty/single/several, all 52 tag-filter letters, a-addresses whose d contains ':' -> must be accepted and denote the same message; (corrupt) one catalogue corruption of such a message (envelope, event member, filter member classes) -> must be rejected; (mix) 0-3 corruptions and undecided features combined, judged by the reference validator on the decoded text; (observe) sub-cases the statement leaves open, only counted; (e2e) the same kinds of frames through Relay.ServeHTTP: forwarded vs NOTICE. Every accepted text of every stream: the accepted value must satisfy the statement's constraints. non-trivial = every case except compact well-formed texts; distinct = distinct (stream, label, text style, optional-part shape | corruption class and sub-class | verdict reasons)"
 	defer rep.Finish()
 
 	if p := os.Getenv("VERIF_REPLAY"); p != "" {
@@ -256,7 +269,11 @@ func TestVerif_C11(t *testing.T) {
 			label := c11Labels[i%len(c11Labels)]
 			m := c11GenMsg(r, label, false)
 			ws, esc, style := c11Style(r)
-			text := c11Text(r, m.root, ws, esc)
+			text, plan := c11TextPlan(r, m.root, ws, esc)
+			if plan != "short" {
+				style += "/" + plan
+				acc.count("wf:" + plan)
+			}
 			tree, err := c11Decode(text)
 			if err != nil {
 				acc.count("harness:text-not-json")
@@ -499,6 +516,11 @@ func TestVerif_C11(t *testing.T) {
 		rep.Require(rep.Counter("wf:"+l) >= int64(nWF/5*9/10), "too few well-formed "+l+" texts")
 	}
 	rep.Require(rep.Counter("wf:leading-whitespace") >= int64(nWF/20), "too few texts with leading whitespace")
+	for _, pl := range []string{"long-leading", "long-before-label", "long-leading+before-label", "long-elsewhere"} {
+		rep.Require(rep.Counter("wf:"+pl) >= int64(nWF/40), "too few well-formed texts with whitespace plan "+pl)
+	}
+	rep.Require(rep.Counter("e2e:long-leading")+rep.Counter("e2e:long-leading+before-label") >= 10 &&
+		rep.Counter("e2e:long-before-label")+rep.Counter("e2e:long-leading+before-label") >= 10, "too few end-to-end frames with long whitespace before '[' / before the label")
 	rep.Require(rep.Counter("wf:trailing-whitespace") >= int64(nWF/20), "too few texts with trailing whitespace")
 	rep.Require(rep.Counter("wf:a-address-d-with-colon") >= int64(nWF/500), "too few a-addresses with ':' in d")
 	rep.Require(rep.Counter("wf:empty-filter") >= int64(nWF/500), "too few empty filters")
@@ -594,7 +616,11 @@ func c11EndToEnd(rep *vk.Report, cat []c11Class) {
 				label = c11Labels[(i/2)%len(c11Labels)]
 				m := c11GenMsg(r, label, true)
 				ws, esc, _ := c11Style(r)
-				fr = c11Frame{text: c11Text(r, m.root, ws, esc), expect: "accept", class: "wf"}
+				text, plan := c11TextPlan(r, m.root, ws, esc)
+				if plan != "short" {
+					acc.count("e2e:" + plan)
+				}
+				fr = c11Frame{text: text, expect: "accept", class: "wf"}
 				fr.tree, err = c11Decode(fr.text)
 				if err != nil || c11RefValid(fr.tree).Class() != "wf" {
 					acc.count("harness:generator-oracle-disagree")
